@@ -69,6 +69,8 @@ type SimContext struct {
 	HeavyFireAt int64
 	FiredInWork bool
 	WorkAfter   int64 // work units after the cancellation
+	// (… of which inside the instruction that is running now)
+	workAfterInInstr int64
 	// WorkCapAfter > 0: the work unit that comes more than WorkCapAfter units
 	// after the cancellation panics with RunawayWorkPanic.
 	WorkCapAfter int64
@@ -117,6 +119,7 @@ func (c *SimContext) Rearm(cancelAt int64) {
 	}
 	c.Clock, c.Ticks, c.Polls, c.PollsAfter, c.TicksAfter, c.FiredAt = 0, 0, 0, 0, 0, 0
 	c.Work, c.workInInstr, c.MaxInInstr, c.WorkAfter, c.FiredInWork, c.RunawayWork = 0, 0, 0, 0, false, false
+	c.workAfterInInstr = 0
 	c.CancelAt = cancelAt
 	c.HitCap = false
 	c.Runaway = false
@@ -248,7 +251,8 @@ func Work() {
 	}
 	if c.fired {
 		c.WorkAfter++
-		if c.WorkCapAfter > 0 && c.WorkAfter > c.WorkCapAfter {
+		c.workAfterInInstr++
+		if c.WorkCapAfter > 0 && c.workAfterInInstr > c.WorkCapAfter {
 			c.RunawayWork = true
 			// where is it? (the innermost frames name the walk that does
 			// not end)
@@ -276,6 +280,7 @@ func Work() {
 //go:norace
 func (c *SimContext) tick() {
 	c.workInInstr = 0
+	c.workAfterInInstr = 0
 	if c.fired {
 		c.TicksAfter++
 		if c.PanicAfter > 0 && c.TicksAfter > c.PanicAfter {
